@@ -33,10 +33,14 @@ pub enum Group {
     ClockStart,
     ClockEnd,
     Lift,
+    NonMut,
+    FromIdMap,
+    FromStore,
 }
 
 pub const TARGETS: &str = "insert_with | insert | remove | merge | exclude | intersect | subset_of | \
-is_range_covered | contains_clock | find_start | clock_start | clock_end | push_coalesced | all | lift";
+is_range_covered | contains_clock | find_start | clock_start | clock_end | push_coalesced | all | lift | \
+nonmut | from_idmap | from_store | lift_all";
 
 /// `(group, target label written into the witness)`.
 pub fn groups_for(target: &str) -> Option<Vec<(Group, String)>> {
@@ -59,6 +63,15 @@ pub fn groups_for(target: &str) -> Option<Vec<(Group, String)>> {
         ]),
         // per-client lifting of empty-range inserts (see README); not part of `all`
         "lift" => own(Group::Lift),
+        // per-client lifting (IdMapInner / IdSet / IdMap level); not part of `all`
+        "nonmut" => own(Group::NonMut),
+        "from_idmap" => own(Group::FromIdMap),
+        "from_store" => own(Group::FromStore),
+        "lift_all" => Some(vec![
+            (Group::NonMut, "nonmut".to_string()),
+            (Group::FromIdMap, "from_idmap".to_string()),
+            (Group::FromStore, "from_store".to_string()),
+        ]),
         "all" => Some(vec![
             (Group::ContainsClock, "contains_clock".to_string()),
             (Group::ClockStart, "clock_start".to_string()),
@@ -153,6 +166,9 @@ pub struct Search {
     /// Enumerate the two-client state lists (their universe does not grow
     /// with `n`, so a staged search runs them once).
     pub two_clients: bool,
+    /// Is this the last stage of a staged search (see `cmd_search`), the one
+    /// whose `n` is the requested universe?
+    pub last_stage: bool,
 }
 
 /// Per-thread executor of cases.
@@ -194,7 +210,16 @@ impl Search {
     /// The reported disagreement is the one a sequential run would hit first
     /// (smallest state index; within a state the order is sequential).
     fn for_states(&mut self, label: &str, is_map: bool, ss: &StateSet, f: StateFn) -> Result<(), Stop> {
-        let count = ss.states.len();
+        self.for_indices(ss.states.len(), &|w: &mut Worker, i: usize| f(w, label, is_map, ss, i))
+    }
+
+    /// Runs `f` for every index below `count`, spread over `jobs` threads; the
+    /// reported disagreement is the one with the smallest index.
+    fn for_indices(
+        &mut self,
+        count: usize,
+        f: &(dyn Fn(&mut Worker, usize) -> Result<(), Stop> + Sync),
+    ) -> Result<(), Stop> {
         let jobs = self.jobs.max(1).min(count.max(1));
         let best = AtomicUsize::new(usize::MAX);
         let timed_out = AtomicBool::new(false);
@@ -216,7 +241,7 @@ impl Search {
                             if i > best.load(Ordering::Relaxed) || timed_out.load(Ordering::Relaxed) {
                                 break;
                             }
-                            match f(&mut w, label, is_map, ss, i) {
+                            match f(&mut w, i) {
                                 Ok(()) => {}
                                 Err(Stop::Found(fd)) => {
                                     best.fetch_min(i, Ordering::Relaxed);
@@ -418,7 +443,89 @@ impl Search {
             Group::Exclude => self.unary(label, &[false, true], exclude_pairs),
             Group::Intersect => self.unary(label, &[false, true], intersect_pairs),
             Group::SubsetOf => self.unary(label, &[false], subset_pairs),
+            Group::NonMut => {
+                for ss in self.nonmut_states() {
+                    self.for_states(label, false, &ss, nonmut_pairs)?;
+                }
+                Ok(())
+            }
+            Group::FromIdMap => {
+                for ss in self.from_idmap_states() {
+                    self.for_states(label, true, &ss, from_idmap_cases)?;
+                }
+                Ok(())
+            }
+            Group::FromStore => {
+                // the script list is its own iterative deepening (smallest
+                // documents first): it runs once per search, in the stage that
+                // carries the requested universe
+                if !self.last_stage {
+                    return Ok(());
+                }
+                let scripts = store_scripts(self.n);
+                self.for_indices(scripts.len(), &|w: &mut Worker, i: usize| {
+                    w.exec(label, false, script_universe(&scripts[i]), O::empty(), None, Op::FromStore(scripts[i].clone()))
+                })
+            }
         }
+    }
+
+    /// Set states for the non-mutating operations: one client over universe
+    /// `n`, and two clients with an independent subset each over a smaller
+    /// universe (2 clocks in the first stage of a staged search, 4 in the last:
+    /// 256 states, 65536 ordered pairs).
+    fn nonmut_states(&self) -> Vec<StateSet> {
+        let n = self.n;
+        let n2 = if self.last_stage { n.min(4) } else { n.min(2) };
+        let mut two = Vec::new();
+        for m1 in 0..(1u32 << n2) {
+            for m2 in 0..(1u32 << n2) {
+                let mut o = O::from_mask(0, m1);
+                o.set_mask(1, m2);
+                two.push(o);
+            }
+        }
+        vec![
+            StateSet {
+                states: (0..(1u32 << n)).map(|m| O::from_mask(0, m)).collect(),
+                simple: Vec::new(),
+                universe: n,
+                clients: &[1],
+            },
+            StateSet {
+                states: two,
+                simple: Vec::new(),
+                universe: n2,
+                clients: &[1, 2],
+            },
+        ]
+    }
+
+    /// The attributed states of `map_states` (single client over `n`, two
+    /// clients over 2 clocks); when universe `n` is only sampled, the largest
+    /// exhaustive universe (6 clocks, 4096 states) is enumerated as well.
+    fn from_idmap_states(&self) -> Vec<StateSet> {
+        let mut out = Vec::new();
+        let exhaustive = (1u128 << (2 * self.n)) <= MAP_STATE_LIMIT as u128;
+        if !exhaustive && self.single_client {
+            let mut m = 1u32;
+            while (1u128 << (2 * (m + 1))) <= MAP_STATE_LIMIT as u128 {
+                m += 1;
+            }
+            let small = Search {
+                n: m,
+                seed: self.seed,
+                deadline: None,
+                jobs: 1,
+                cases: 0,
+                single_client: true,
+                two_clients: false,
+                last_stage: false,
+            };
+            out.extend(small.state_sets(true));
+        }
+        out.extend(self.state_sets(true));
+        out
     }
 
     fn unary(&mut self, label: &str, variants: &[bool], f: StateFn) -> Result<(), Stop> {
@@ -623,4 +730,185 @@ fn intersect_pairs(w: &mut Worker, label: &str, is_map: bool, ss: &StateSet, idx
 
 fn subset_pairs(w: &mut Worker, label: &str, is_map: bool, ss: &StateSet, idx: usize) -> Result<(), Stop> {
     pairs(w, label, is_map, ss, idx, Op::SubsetOf { client: 1 }, 4)
+}
+
+// ---- lifted operations -------------------------------------------------------
+
+/// Every ordered pair, every non-mutating operation.
+fn nonmut_pairs(w: &mut Worker, label: &str, _is_map: bool, ss: &StateSet, idx: usize) -> Result<(), Stop> {
+    let a = ss.states[idx];
+    for b in &ss.states {
+        for which in NONMUT_KINDS {
+            w.exec(label, false, ss.universe, a, Some(*b), Op::NonMut { which: which.to_string() })?;
+        }
+    }
+    Ok(())
+}
+
+/// The map is built in canonical order and through orders that make the map
+/// split and re-join its ranges; the conversions must not care.
+fn from_idmap_cases(w: &mut Worker, label: &str, _is_map: bool, ss: &StateSet, idx: usize) -> Result<(), Stop> {
+    let st = ss.states[idx];
+    for method in ["canonical", "desc_singles", "layered"] {
+        w.exec(label, true, ss.universe, st, None, Op::FromIdMap { method: method.to_string() })?;
+    }
+    Ok(())
+}
+
+fn script_universe(script: &StoreScript) -> u32 {
+    script.outcome().map(|o| o.next[0].max(o.next[1])).unwrap_or(0)
+}
+
+/// All sets of at most two `remove_range(index, len)` calls of `client` on a
+/// sequence of `len` elements (every index/len combination within bounds,
+/// `len == 0` included), smallest first.
+fn removal_sets(client: u64, len: u32) -> Vec<Vec<Step>> {
+    let ranges = |len: u32| -> Vec<(u32, u32)> {
+        let mut out = Vec::new();
+        for l in 0..=len {
+            for i in 0..=(len - l) {
+                out.push((i, l));
+            }
+        }
+        out
+    };
+    let mut out: Vec<Vec<Step>> = vec![Vec::new()];
+    for (i, l) in ranges(len) {
+        out.push(vec![Step::Remove { client, index: i, len: l }]);
+    }
+    for (i1, l1) in ranges(len) {
+        for (i2, l2) in ranges(len - l1) {
+            out.push(vec![
+                Step::Remove { client, index: i1, len: l1 },
+                Step::Remove { client, index: i2, len: l2 },
+            ]);
+        }
+    }
+    out
+}
+
+/// The exhaustive script list of target `from_store`, smallest documents first.
+fn store_scripts(universe: u32) -> Vec<StoreScript> {
+    let max_n = universe.min(5);
+    let mut out: Vec<StoreScript> = Vec::new();
+    let emit = |doc: &str, steps: &[Step], out: &mut Vec<StoreScript>| {
+        let calls: u32 = steps
+            .iter()
+            .map(|s| match s {
+                Step::Push { n, .. } => *n,
+                _ => 1,
+            })
+            .sum();
+        let one_client_run = steps.windows(2).all(|w| w[0].client() == w[1].client());
+        for gc in [true, false] {
+            for txn in TXN_MODES {
+                // modes that cannot differ for this script are not repeated
+                if txn == "per_step" && calls as usize == steps.len() {
+                    continue;
+                }
+                if txn == "whole" && steps.len() <= 1 {
+                    continue;
+                }
+                if txn == "whole" && !one_client_run && steps.len() == 2 {
+                    continue;
+                }
+                out.push(StoreScript {
+                    doc: doc.to_string(),
+                    gc,
+                    txn: txn.to_string(),
+                    steps: steps.to_vec(),
+                });
+            }
+        }
+    };
+    let with_tail = |steps: &[Step], tail: Step| -> Vec<Vec<Step>> {
+        let mut longer = steps.to_vec();
+        longer.push(tail);
+        vec![steps.to_vec(), longer]
+    };
+
+    // 1. text, one client: n appended characters (clock i = i-th character),
+    //    at most two removals, optionally one more insertion
+    for n in 0..=max_n {
+        for removes in removal_sets(1, n) {
+            let mut steps = vec![Step::Push { client: 1, n }];
+            steps.extend(removes);
+            for s in with_tail(&steps, Step::Push { client: 1, n: 1 }) {
+                emit("text", &s, &mut out);
+            }
+        }
+    }
+
+    // 2. array, one client: `pre` primitives, one nested shared type with
+    //    children, `post` primitives; then at most two removals (whole nested
+    //    types are deleted: with GC their children become GC blocks),
+    //    optionally one more insertion
+    for pre in 0..=2u32 {
+        for post in 0..=1u32 {
+            for kind in NESTED_KINDS {
+                for children in 0..=2u32 {
+                    if children == 0 && kind != "array" && kind != "map" {
+                        continue;
+                    }
+                    if nested_clocks(kind, children) + pre + post + 1 > L as u32 {
+                        continue;
+                    }
+                    let mut base = Vec::new();
+                    if pre > 0 {
+                        base.push(Step::Push { client: 1, n: pre });
+                    }
+                    base.push(Step::PushNested { client: 1, kind: kind.to_string(), children });
+                    if post > 0 {
+                        base.push(Step::Push { client: 1, n: post });
+                    }
+                    for removes in removal_sets(1, pre + 1 + post) {
+                        let mut steps = base.clone();
+                        steps.extend(removes);
+                        for s in with_tail(&steps, Step::Push { client: 1, n: 1 }) {
+                            emit("array", &s, &mut out);
+                        }
+                    }
+                }
+            }
+        }
+    }
+    // two nested types next to each other (adjacent deleted spans must coalesce)
+    for removes in removal_sets(1, 3) {
+        let mut steps = vec![
+            Step::PushNested { client: 1, kind: "map".to_string(), children: 2 },
+            Step::Push { client: 1, n: 1 },
+            Step::PushNested { client: 1, kind: "array".to_string(), children: 2 },
+        ];
+        steps.extend(removes);
+        emit("array", &steps, &mut out);
+    }
+
+    // 3. two clients: client 1 writes, client 2 (synchronised) appends and
+    //    removes across both clients' elements; both documents are inspected
+    for n1 in 1..=max_n.min(3) {
+        for n2 in 0..=max_n.min(2) {
+            for removes in removal_sets(2, n1 + n2) {
+                let mut steps = vec![Step::Push { client: 1, n: n1 }];
+                if n2 > 0 {
+                    steps.push(Step::Push { client: 2, n: n2 });
+                }
+                steps.extend(removes);
+                for s in with_tail(&steps, Step::Push { client: 1, n: 1 }) {
+                    emit("text", &s, &mut out);
+                }
+            }
+        }
+    }
+    for kind in ["array", "map"] {
+        for removes in removal_sets(2, 3) {
+            let mut steps = vec![
+                Step::Push { client: 1, n: 1 },
+                Step::PushNested { client: 1, kind: kind.to_string(), children: 2 },
+                Step::PushNested { client: 2, kind: kind.to_string(), children: 1 },
+            ];
+            steps.extend(removes);
+            emit("array", &steps, &mut out);
+        }
+    }
+    out
 }
